@@ -16,6 +16,7 @@ import (
 	"crypto/tls"
 	"crypto/x509"
 	"crypto/x509/pkix"
+	"encoding/pem"
 	"errors"
 	"fmt"
 	"io"
@@ -188,6 +189,7 @@ type Msg struct {
 	Body     []byte // kept only if keepBody
 	Complete bool   // body framing terminated properly
 	Chunks   []int  // chunk sizes seen (chunked only)
+	Stray    int    // client side: blank lines (CRLF) skipped before the status line
 	Early    bool   // origin side: the answer was sent before the whole body had been read
 	Err      string // "" if parsed OK (possibly incomplete body)
 	EOF      bool   // the peer closed (or reset) while/after this message
@@ -390,6 +392,25 @@ func ReadRequestHead(br *bufio.Reader) (*Msg, error) {
 // HEAD. It never fails hard: problems are recorded in Msg.Err / Msg.EOF.
 // A nil result means clean EOF (or reset) before any byte.
 func ReadResponse(br *bufio.Reader, reqMethod string, keep bool) *Msg {
+	// Blank lines before a status line: a robust client skips them, but they
+	// are bytes no response accounts for; they are skipped AND reported.
+	stray := 0
+	for {
+		b, err := br.Peek(2)
+		if err != nil || b[0] != '\r' || b[1] != '\n' {
+			break
+		}
+		br.Discard(2)
+		stray++
+	}
+	m := readResponse(br, reqMethod, keep)
+	if m != nil {
+		m.Stray = stray
+	}
+	return m
+}
+
+func readResponse(br *bufio.Reader, reqMethod string, keep bool) *Msg {
 	head, err := readHead(br, 1<<20)
 	if err != nil && len(head) == 0 {
 		if isClose(err) {
@@ -665,4 +686,9 @@ func SelfSigned() (*tls.Config, error) {
 		return nil, err
 	}
 	return &tls.Config{Certificates: []tls.Certificate{{Certificate: [][]byte{der}, PrivateKey: key}}}, nil
+}
+
+// CertPEM returns the (first) certificate of a server configuration in PEM form.
+func CertPEM(c *tls.Config) []byte {
+	return pem.EncodeToMemory(&pem.Block{Type: "CERTIFICATE", Bytes: c.Certificates[0].Certificate[0]})
 }
